@@ -271,7 +271,7 @@ theorem wd_main (H : Bytes → Bytes) (hH : ∀ m, (H m).length = 32) (c : Ctx) 
             intro i x hk
             have hki := hkids i
             rw [hk] at hki
-            have hcx := hc.2 hd i x hk
+            have hcx := hc.2 i x hk
             rw [hN, kidAt_map] at hcx
             have hlt := depth_kid pk v cs i
             refine ⟨hki.2, hcx, ?_, rootAbove_mono hab (Nat.le_of_lt hlt)⟩
